@@ -151,6 +151,7 @@ class T13:
     al: int = field(default=3, metadata={"alias": "AL"})
     o: Optional[int] = None
     df: int = 5
+    b: bytes = b"\x00\xffabc"          # native in msgpack whatever user dialect is merged on top of the format dialect
 
 
 OPTIONS = {
@@ -167,6 +168,17 @@ VALUES = [
     lambda: T13(datetime.date(1999, 12, 31), NT(-1, ""), [], al=4, o=7, df=6),
     lambda: T13(datetime.date(2021, 3, 4), NT(0, "y"), [3], al=3, o=None, df=5),
 ]
+
+
+def _bytes_as_base64(x):
+    import base64
+    if isinstance(x, (bytes, bytearray)):
+        return base64.encodebytes(bytes(x)).decode()
+    if isinstance(x, dict):
+        return {k: _bytes_as_base64(v) for k, v in x.items()}
+    if isinstance(x, list):
+        return [_bytes_as_base64(v) for v in x]
+    return x
 
 
 def run_codec(unit):
@@ -205,7 +217,7 @@ def run_codec(unit):
                     res.violation(f"codec-dialect-neq|basic|{sub}|{style}|encode", "codec-dialect-neq", "encode",
                                   dict(unit=unit, value=vi), f"value={v!r} basic codec: options on the dialect {direct!r} vs {style} {basic!r}")
             doc = enc.encode(v)
-            parsed = formats.denative(formats.parse(fmt, doc))
+            parsed = _bytes_as_base64(formats.denative(formats.parse(fmt, doc)))     # msgpack carries bytes natively
             exp = formats.drop_none(basic) if fmt == "toml" else basic
             if parsed != exp:
                 res.outcomes["encode-neq"] += 1
@@ -218,7 +230,7 @@ def run_codec(unit):
             # dates are native, from the parsed library document) must decode like the basic decoder
             src = formats.drop_none(basic) if fmt == "toml" else basic
             want = bdec.decode(src)
-            foreign = formats.dump(fmt, formats.parse(fmt, doc)) if fmt == "toml" else formats.dump(fmt, src)
+            foreign = formats.dump(fmt, formats.parse(fmt, doc)) if fmt in ("toml", "msgpack") else formats.dump(fmt, src)
             got = dec.decode(foreign)
             if got != want or type(got) is not type(want):
                 res.outcomes["decode-neq"] += 1
